@@ -75,7 +75,17 @@ def expand_keywords(cfg: CFG, node: Node, call: ast.Call) -> Optional[Dict[str, 
             for kk in v.keywords:
                 out[kk.arg] = kk.value
         elif isinstance(v, ast.Dict) and all(isinstance(x, ast.Constant) and isinstance(x.value, str) for x in v.keys):
+            from .sym import simplify
             for x, val in zip(v.keys, v.values):
+                if isinstance(val, ast.Subscript) and isinstance(val.slice, ast.Constant):
+                    # a field of a record built here (`**rec._asdict()`): the expression the field was given
+                    pv = simplify(resolve(cfg, node, val))
+                    if isinstance(pv, ast.Subscript) and isinstance(pv.value, ast.Name):
+                        cv = closure_value(cfg.scope, pv.value.id)      # the record is a variable of an enclosing function
+                        if isinstance(cv, ast.Tuple):
+                            pv = simplify(ast.Subscript(value=cv, slice=pv.slice, ctx=ast.Load()))
+                    if not isinstance(pv, ast.Subscript):
+                        val = pv
                 out[x.value] = val
         else:
             return None
